@@ -36,6 +36,20 @@ CHECKS = {
                 "(decision part determined by the allele multiset) is proved only for copy ordering and XOR-determined novelty flags.",
         "technique": "Lean 4 proof over the constraint builder + captured-model structural correspondence + exhaustive spec oracle",
     },
+    "C03": {
+        "text": "Machine-checked theorems about CNInst.build (Lean model of solve_cn_model's construction) for every instance and feasible point: "
+                "exactly two complete haplotype slots, double deletion excludes every other slot, slot ordering, only DEFAULT configurations have "
+                "extra copies (fusion/deletion/custom at most twice), error terms equal the documented residuals and lie within +-cn_max, objective = "
+                "documented weighted sum; about the read-out foldCN: reported structures distinct, each is the decoding of a yield with that score, "
+                "every yield's structure reported, score = least objective among yielded explanations (given non-decreasing yields, C05 T4); and about "
+                "the estimate_cn decision table (user structure verbatim, unknown names rejected, two/one default copies). Ties on every run: captured "
+                "CBC model == CNInst.build, real return == foldCN(real yields), _filter_configs == filterConfigs, estimate_cn decisions == cnDecision; "
+                "plus an exhaustive spec-level oracle over all admissible internal assignments.",
+        "design_ref": "DESIGN.md section 4 (C03)",
+        "note": "Global optimality and superset-completeness are C05's Run theorems applied to this model plus the exhaustive oracle; the exome/VCF "
+                "profile dispatch of genotype.py is covered by C19/C16 ties.",
+        "technique": "Lean 4 proof over the constraint builder and the fold + captured-model structural correspondence + exhaustive spec oracle",
+    },
 }
 
 NOT_YET = "check not built yet (work in progress; see DESIGN.md section 9 build order)"
